@@ -288,7 +288,7 @@ where
 }
 
 pub fn run_c11(ctx: &Ctx) {
-    let (count, n) = if ctx.thorough() { (400usize, 10_000_000u64) } else { (40usize, 1_000_000u64) };
+    let (count, n) = if ctx.thorough() { (400usize, 10_000_000u64) } else { (120usize, 1_000_000u64) };
     for ft in [Ft::F32, Ft::F64] {
         let mut r = BaseRng::from_env(hseed(&[ctx.seed, ft as u64, 0xC11]));
         let alphas = dirichlet_alphas(ft, &mut r, count);
@@ -494,7 +494,7 @@ where
 }
 
 pub fn run_c12(ctx: &Ctx) {
-    let n: u64 = if ctx.thorough() { 10_000_000_000 } else { 200_000_000 };
+    let n: u64 = if ctx.thorough() { 10_000_000_000 } else { 500_000_000 };
     for which in [Fam::UnitCircle, Fam::UnitDisc, Fam::UnitSphere, Fam::UnitBall] {
         geom_one::<f32>(ctx, which, n);
         geom_one::<f64>(ctx, which, n);
